@@ -20,6 +20,7 @@ type c11Scen struct {
 	Ops         []AdminOp   `json:"history"`
 	EveryPrefix bool        `json:"probe_after_every_prefix"`
 	NoTrim      bool        `json:"trim_right_slash_off,omitempty"`
+	Options     bool        `json:"options_filter,omitempty"` // Container.OPTIONSFilter installed; OPTIONS probes after every operation
 	// Traffic: requests (indices into the probe list) served by a second task while the history is
 	// applied; their answers are not judged here (C12 does that), but nothing they leave behind may
 	// change what the container answers afterwards
@@ -124,6 +125,10 @@ func genC11(x *Ctx) *c11Scen {
 		}
 	})
 	sc.NoTrim = tp.Chance(120)
+	if tp.Chance(80) {
+		sc.Options = true
+		sc.EveryPrefix = true // the same OPTIONS request before and after a route change
+	}
 	if tp.Chance(300) {
 		probes := c11Probes(sc)
 		np := len(probes)
@@ -184,6 +189,9 @@ func c11Probes(sc *c11Scen) []Probe {
 	}
 	for _, sp := range sc.Svcs {
 		for _, r := range sp.Routes {
+			if sc.Options {
+				add("OPTIONS", instantiate(FullPath(sp.Root, r.Path), 0))
+			}
 			for v := 0; v < 2; v++ {
 				full := instantiate(FullPath(sp.Root, r.Path), v)
 				segs := strings.Split(strings.Trim(full, "/"), "/")
@@ -213,7 +221,7 @@ func runC11(x *Ctx) {
 	x.Res.Scenario = sc
 	x.Res.ScenHash = sim.HashString(jsonStr(sc))
 	s := x.Sim
-	w := &World{Svcs: sc.Svcs, Router: sc.Router, Filters: sc.Filters, Plains: sc.Plains}
+	w := &World{Svcs: sc.Svcs, Router: sc.Router, Filters: sc.Filters, Plains: sc.Plains, Options: sc.Options}
 	w.index()
 	init := RegState{Routes: map[int][]int{}, Twins: map[int][]int{}}
 	for _, sp := range sc.Svcs {
